@@ -96,6 +96,11 @@ def spec_agree(ci, cd, sx):
             return True, "skipped-pos-dependent"
         if loose(ci[1]) == loose(cd[1]):
             return True, "permutation"
+        if ("(PSUBX" in sx or "(OR " in sx or "(IFELSE" in sx) and \
+                loose([e for e in ci[1] if e.startswith("R")]) == loose([e for e in cd[1] if e.startswith("R")]):
+            # a construct that stops at the first result of a sub-expression whose results come in unspecified
+            # order: how many diagnostics precede that first result is unspecified too
+            return True, "skipped-diagnostics-before-first-result"
         if "(FORMAT" in sx and [e for e in ci[1] if not e.startswith("R")] == [e for e in cd[1] if not e.startswith("R")] \
                 and len(ci[1]) == len(cd[1]):
             # a value built in unspecified order was rendered into a string: the order is baked into text
